@@ -511,7 +511,7 @@ def r15_11(ctx):
     missing `.list` / `.next` link (C17 R17.11, the `none` part) - there is no exception barrier around handle_reset()."""
     from . import c17
     n = c17.subtree_walk(ctx, "esp_kconfiglib.core:_recursively_perform_action", "start_node", parts=("none",))
-    if n < 2:
+    if n < 1:
         raise AnalysisError("steps of _recursively_perform_action not found")
 
 
@@ -536,4 +536,4 @@ def r15_13(ctx):
 
 
 def rules():
-    return [("R15.13", r15_13, 1), ("R15.12", r15_12, 8), ("R15.11", r15_11, 2), ("R15.10", r15_10, 2), ("R15.9", r15_9, 4), ("R15.7", r15_7, 1), ("R15.1", r15_1, 4), ("R15.2", r15_2, 2), ("R15.3", r15_3, 3), ("R15.4", r15_4, 2), ("R15.5", r15_5, 3), ("R15.6", r15_6, 2), ("R15.8", r15_8, 6)]
+    return [("R15.13", r15_13, 1), ("R15.12", r15_12, 8), ("R15.11", r15_11, 1), ("R15.10", r15_10, 2), ("R15.9", r15_9, 4), ("R15.7", r15_7, 1), ("R15.1", r15_1, 4), ("R15.2", r15_2, 2), ("R15.3", r15_3, 3), ("R15.4", r15_4, 2), ("R15.5", r15_5, 3), ("R15.6", r15_6, 2), ("R15.8", r15_8, 6)]
